@@ -645,7 +645,25 @@ def swapped_fields_variant(spec):
         return None
 
     def sig(c):
-        return (c["k"], c.get("dtype"), c.get("param"))
+        # the type skeleton, not the node class: with the compatibility rules of Form::equal a BitMaskedForm passes for
+        # a ByteMaskedForm of the same content and valid_when, so fields that differ in node class only may be
+        # exchanged without the Form "changing"
+        k = c["k"]
+        if k == "numpy":
+            return ("num", c.get("dtype"), c.get("param"), tuple(c.get("shape", [0])[1:]))
+        if k in ("listoffset", "list"):
+            return ("list", c.get("param"), sig(c["content"]))
+        if k == "regular":
+            return ("reg", c.get("size"), c.get("param"), sig(c["content"]))
+        if k in ("bytemasked", "bitmasked", "unmasked") or (k == "indexed" and c.get("option")):
+            return ("opt", sig(c["content"]))
+        if k == "indexed":
+            return sig(c["content"])
+        if k == "record":
+            return ("rec", c.get("name"), tuple(sorted((str(key), sig(x)) for key, x in zip(c.get("keys") or range(len(c["contents"])), c["contents"]))))
+        if k == "union":
+            return ("union", tuple(sig(x) for x in c["contents"]))
+        return (k,)
     for i in range(len(rec["keys"])):
         for j in range(i + 1, len(rec["keys"])):
             if sig(rec["contents"][i]) != sig(rec["contents"][j]):
